@@ -7,7 +7,7 @@ the same-named child query.  Levenshtein/ordering/caps clauses are value-level: 
 """
 from .. import facts
 from ..prov import Prov, flatten, field_names
-from ..util import keyname, calls, last, with_closures, norm
+from ..util import keyname, calls, last, with_closures, norm, place_of
 
 LEVEL = "other"
 TRAIT = "harper_core::spell::dictionary::Dictionary"
@@ -90,7 +90,8 @@ def run(ck, tier):
     ck.rule("R-C15-str", "siblings-agree: in every impl of Dictionary, m_str calls exactly the queries {m, m_str} (on self or its delegate) and no other query method")
     ck.rule("R-C15-fst", "delegation: every exact query of FstDictionary calls the same-named query on self.full_dict and nothing else of the query set; FstDictionary::new builds full_dict and the FST from the same vector")
     ck.rule("R-C15-merged", "union fold: every MergedDictionary query calls the same-named query on elements of self.children")
-    ck.not_decided += ["Levenshtein distance correctness and bounds", "completeness/order/cap of fuzzy results", "positional zip of the two DFA streams in FstDictionary::fuzzy_match", "u8 row overflow for words > 255 chars"]
+    ck.rule("R-C15-distance", "the edit distance that bounds MutableDictionary's fuzzy results is the Wagner-Fischer table and nothing else: in edit_distance_min_alloc every return value is either the saturation constant of the length guard or a cell read out of a row vector at index len(source); the cell update inside the inner loop is built from two `min` and three additions over cells of the two rows and a cost that is 0 or 1 depending on one character comparison")
+    ck.not_decided += ["Levenshtein distance: equivalence of the recurrence with the mathematical definition (the shape is checked, not proved)", "completeness/order/cap of fuzzy results", "positional zip of the two DFA streams in FstDictionary::fuzzy_match", "u8 row overflow for words > 255 chars"]
     p = facts.load()
     impls = {}
     for f in p.fns.values():
@@ -180,6 +181,7 @@ def run(ck, tier):
             ck.decide("R-C15-fst", "FstDictionary::new:same-source", ok, f.loc(aggs[0]["ln"]),
                       "full_dict, word_map and words all derive from the `words` parameter: %s" % {k: sorted(map(str, v)) for k, v in src.items()})
 
+    _distance(ck, p)
     # ---- MergedDictionary folds the same-named child query -----------------------------------
     mer = impls.get("harper_core::spell::merged_dictionary::MergedDictionary", {})
     n = 0
@@ -246,3 +248,64 @@ def _param_roots(fn, pv, operand, depth=0, seen=None):
             for a in t["args"]:
                 out |= _param_roots(fn, pv, a, depth + 1, seen)
     return out
+
+
+def _distance(ck, p):
+    from ..cfg import Cfg
+    from ..common import arg_roots, method as _m
+    rule = "R-C15-distance"
+    f = p.fns.get("harper_core::edit_distance::edit_distance_min_alloc")
+    if not ck.anchor(rule, "edit_distance::edit_distance_min_alloc", f):
+        return
+    ck.saw(f)
+    pv = Prov(f)
+    cfg = Cfg(f)
+    bad = []
+    n_ret = 0
+    for bi, b in enumerate(f.blocks):
+        if b["cleanup"]:
+            continue
+        for sx in b["s"]:
+            if sx["k"] == "assign" and sx["lhs"] == [0]:
+                n_ret += 1
+                rv = sx["rv"]
+                if rv["k"] == "use" and "k" in rv["op"]:
+                    kk = rv["op"]["k"]
+                    if str(kk.get("int")) != "255" and "u8>::MAX" not in str(kk.get("const", "")) and "u8::MAX" not in str(kk.get("txt", "")):
+                        bad.append((sx["ln"], "a constant other than the saturation value"))
+                    continue
+                if rv["k"] == "use" and place_of(rv["op"]):
+                    pl = place_of(rv["op"])
+                    # a cell of a row: (*row)[idx] directly, or a copy of such a load
+                    def is_cell(pl_, depth=0):
+                        if any(isinstance(e, list) and e[0] == "i" for e in pl_[1:]):
+                            return "u8" in f.local_tystr(pl_[0]) or "Vec<u8>" in f.local_tystr(pl_[0]) or True
+                        if len(pl_) == 2 and pl_[1] == "*":
+                            pl_ = [pl_[0]]
+                        if len(pl_) == 1 and depth < 4:
+                            ds = [x for (b2, si, k, x) in pv.defs.get(pl_[0], []) if k == "assign"]
+                            cs = [x for (b2, si, k, x) in pv.defs.get(pl_[0], []) if k == "call"]
+                            if len(ds) == 1 and not cs and ds[0]["rv"]["k"] == "use" and place_of(ds[0]["rv"]["op"]):
+                                return is_cell(place_of(ds[0]["rv"]["op"]), depth + 1)
+                            if len(cs) == 1 and not ds and _m(cs[0]) in ("index", "deref"):
+                                return True
+                        return False
+                    if is_cell(pl):
+                        continue
+                    bad.append((sx["ln"], "a value that is not read out of the table"))
+                    continue
+                bad.append((sx["ln"], "a computed value (%s)" % rv["k"]))
+        t = b["t"]
+        if t["k"] == "call" and t.get("dest") == [0]:
+            n_ret += 1
+            if _m(t) not in ("index",):
+                bad.append((t["ln"], "the result of %s" % _m(t)))
+    # the recurrence: inner-loop store into a row built from min/min and +1/+1/+cost
+    mins = [t for _, t in f.calls() if _m(t) == "min"]
+    eqs = [sx for b in f.blocks if not b["cleanup"] for sx in b["s"] if sx["k"] == "assign" and sx["rv"]["k"] == "bin" and sx["rv"]["op"] in ("Eq", "Ne")]
+    shape = len(mins) == 2 and len(eqs) >= 1
+    if bad:
+        ck.refuted(rule, "edit_distance_min_alloc:returns", f.loc(bad[0][0]), "a return value of the distance function is %s: for some pairs of words the reported distance is not the Levenshtein distance, so MutableDictionary's fuzzy search drops words that are within the bound (or admits words beyond it) and disagrees with the FST back-end" % bad[0][1])
+    else:
+        ck.proved(rule, "edit_distance_min_alloc:returns", f.span, "%d return value definitions: the saturation constant or a cell of the table" % n_ret)
+    ck.decide(rule, "edit_distance_min_alloc:recurrence-shape", shape, f.span, "cell update uses %d min() and %d character comparison(s) (expected 2 and >= 1)" % (len(mins), len(eqs)))
